@@ -133,7 +133,16 @@ fn read_doc(bytes: &[u8], src: Src, from_str: Option<&str>) -> Result<Seen, Stri
                         }
                         Event::CData(t) => {
                             seen.kinds.push(5);
-                            seen.strings.push(d(t)?);
+                            let content = d(t)?;
+                            // sibling accessors: CDATA converted into escaped text must unescape to the same string
+                            for (name, conv) in [("escape", t.clone().escape()), ("partial_escape", t.clone().partial_escape()), ("minimal_escape", t.clone().minimal_escape())] {
+                                let text = conv.map_err(|e| format!("BytesCData::{}: {:?}", name, e))?;
+                                let back = text.unescape().map_err(|e| format!("DISAGREE: BytesCData::{}().unescape() fails with {:?} although the content decodes to {:?}", name, e, content))?;
+                                if back != content {
+                                    return Err(format!("DISAGREE: BytesCData::{}().unescape() gives {:?}, the content decodes to {:?}", name, back, content));
+                                }
+                            }
+                            seen.strings.push(content);
                         }
                         Event::Comment(t) => {
                             seen.kinds.push(6);
